@@ -88,7 +88,7 @@ claim('C10', 'model_checking',
       'TLC verifies ResultEqualsFresh (every answer = declarative truth), ParentLinksTrue, TermLinksTrue, GeneratorYieldsKth and CachesConsistent over every '
       'reachable cache state x every call x stream repositioning on three constant files (with/without/mixed sibling attributes, 1-3 units) and each '
       'of the ~10^5 edges is executed on a fresh object from a shortest path; the cache projection of the implementation is monitored (DRIFT, not a '
-      'violation). Long histories and every (generator kind x repositioning / interleaving / query-in-between) pattern are replayed on 8-18 corpus files.',
+      'violation). Long histories and every (generator kind x repositioning / interleaving / query-in-between / held-object / revisit) pattern are replayed on 10-19 corpus files and on a sample of the images the other properties\' writers generate.',
       'pruning hypothesis: hidden state = projected caches + generator frames + stream positions; bounded depth (4-5 calls) for exhaustive exploration, '
       'longer histories only by seeded simulation; truth for corpus files is the same query on a fresh object', 'DESIGN.md 5/C10')
 claim('C07', 'model_checking',
@@ -157,14 +157,16 @@ claim('C02', 'model_checking',
       'DESIGN.md 5/C02')
 claim('C18', 'translation_validation',
       'differential against GNU readelf 2.40 under a vendored copy of the project\'s tolerance rules; population = the readelf regression corpus x 18 '
-      'options plus the description sweep generated by the TLA+ specification (spec/Envelope.tla over Elf.tla and the vendored registry: one image '
-      'per entry of every ELF-level description table of the clone, inside the Supported envelope checked by TLC)',
-      'Every (file, option) pair runs both tools and compares their text. The specification does not model GNU readelf\'s formatting (that would be a '
-      'second readelf); it generates the sweep images (e_machine, EI_OSABI, e_type, class/byte order, sh_type per overlay, sh_flags, p_type, p_flags, '
-      'symbol type/binding/visibility/section index, dynamic tags, DT_FLAGS/DT_FLAGS_1 bits) and defines the envelope. ~800 corpus pairs + ~760 sweep pairs.',
+      'options, the description sweeps generated by the TLA+ specification (spec/Envelope.tla: one image per entry of every description table) and the '
+      'cross-writer sweep (vf/c18_writers.py, spec/ReadelfEnvelope*.tla): the images the other properties\' TLA+ writers emit, dumped under the option that shows them',
+      'Every (file, option) pair - or sequence of files dumped by one process - runs both tools and compares their text. The specification does not model GNU '
+      'readelf\'s formatting (that would be a second readelf); it generates the images (ELF-level tables, relocation names of 9 machines, DW_TAG / coded attribute '
+      'values, every DW_OP and DW_CFA, section-to-segment geometry; versions, notes, dynamic, symbols/hash, relocations with named symbols, attributes, headers, line '
+      'programs, CFI incl. nested remember/restore, DIE trees, expression contexts across units, hex/string dumps) and defines the envelope (GNU readelf accepts the '
+      'image without warning; stated predicates per source). ~800 corpus pairs + ~9000 generated pairs in the quick tier.',
       'GNU binutils readelf 2.40 is the oracle (the project targets >= 2.41: seven corpus pairs that differ only for that reason are excluded with the '
-      'reason); DWARF-level description tables, notes, relocation-type names and version flags are not swept yet; known text deviations are listed in '
-      'KNOWN_FINDINGS.json by table entry', 'DESIGN.md 5/C18', engine='tlc')
+      'reason); inputs on which the clone claims no support (unknown d_tag codes, DWARF 5 index forms without text, ...) are outside the envelope by stated predicates; '
+      'known text deviations are listed in KNOWN_FINDINGS.json by signature', 'DESIGN.md 5/C18', engine='tlc')
 claim('C11', 'model_checking',
       'TLA+ debug-section loading pipeline (spec/Container.tla): writer of container encodings of one payload (plain, SHF_COMPRESSED, legacy .zdebug, '
       'debug links with CRC slot, supplementary links) and a byte-level reader machine (Build, CheckLink, FollowDebugLink, ReadSection, InflateGabi, '
